@@ -413,21 +413,28 @@ pub fn run_case(r: &J, followups: bool) -> Observed {
     for (h, v) in obj(r, "acts") {
         acts.insert(h.clone(), v.as_str().unwrap_or("").to_string());
     }
-    for (name, h) in obj(r, "gfun") {
-        expression_engine::register_function(name, handler_arc(h.as_str().unwrap()));
-    }
-    for (name, h) in obj(r, "gprefix") {
-        let hh = h.as_str().unwrap().to_string();
-        expression_engine::register_prefix_op(name, Arc::new(move |v| handler_body(&hh, vec![v])));
-    }
-    for (name, h) in obj(r, "gpostfix") {
-        let hh = h.as_str().unwrap().to_string();
-        expression_engine::register_postfix_op(name, Arc::new(move |v| handler_body(&hh, vec![v])));
-    }
-    for (name, spec) in obj(r, "ginfix") {
-        let hh = spec[0].as_str().unwrap().to_string();
-        let ty = if spec[1] == "SETTER" { expression_engine::InfixOpType::SETTER } else { expression_engine::InfixOpType::CALC };
-        expression_engine::register_infix_op(name, 115, ty, expression_engine::InfixOpAssociativity::LEFT, Arc::new(move |a, b| handler_body(&hh, vec![a, b])));
+    // registrations can themselves panic when an earlier evaluation left a registry mutex poisoned: that is an outcome of
+    // the code under test, not a harness failure
+    let regs_ok = guarded(std::panic::AssertUnwindSafe(|| {
+        for (name, h) in obj(r, "gfun") {
+            expression_engine::register_function(name, handler_arc(h.as_str().unwrap()));
+        }
+        for (name, h) in obj(r, "gprefix") {
+            let hh = h.as_str().unwrap().to_string();
+            expression_engine::register_prefix_op(name, Arc::new(move |v| handler_body(&hh, vec![v])));
+        }
+        for (name, h) in obj(r, "gpostfix") {
+            let hh = h.as_str().unwrap().to_string();
+            expression_engine::register_postfix_op(name, Arc::new(move |v| handler_body(&hh, vec![v])));
+        }
+        for (name, spec) in obj(r, "ginfix") {
+            let hh = spec[0].as_str().unwrap().to_string();
+            let ty = if spec[1] == "SETTER" { expression_engine::InfixOpType::SETTER } else { expression_engine::InfixOpType::CALC };
+            expression_engine::register_infix_op(name, 115, ty, expression_engine::InfixOpAssociativity::LEFT, Arc::new(move |a, b| handler_body(&hh, vec![a, b])));
+        }
+    }));
+    if let Err(m) = regs_ok {
+        return Observed { st: "panic".into(), val: json!(["none"]), ctx: json!({}), log: vec![], poisoned: false, followups: vec![format!("registration panics (registry poisoned by an earlier evaluation?): {}", m)] };
     }
     let mut ctx = Context::new();
     let mut installed: HashMap<String, Arc<dyn Fn(Vec<Value>) -> expression_engine::Result<Value> + Send + Sync>> = HashMap::new();
